@@ -442,8 +442,177 @@ func genPoolSrc(repo string) (string, error) {
 		}
 	}
 
+	// ---- HTTP/2 pool: connection accounting (Model/PoolH2.v, Model/PoolH2Race.v)
+	h2Identity, h2SkipGoaway, h2DecOnDrop, h2DialLocked := false, false, false, false
+	{
+		fs, ff, err := ParseGoFile(repo, "pkg/stream/http2/connpool.go")
+		if err != nil {
+			return "", err
+		}
+		// deleteActiveClient: decrements both gauges; clears p.activeClient unconditionally or only if it is its argument
+		if fd := FindFunc(ff, "connPool", "deleteActiveClient"); fd == nil {
+			bad("http2 deleteActiveClient not found")
+		} else {
+			param := ""
+			if fd.Type.Params != nil && len(fd.Type.Params.List) == 1 && len(fd.Type.Params.List[0].Names) == 1 {
+				param = fd.Type.Params.List[0].Names[0].Name
+			}
+			decs, uncond, cond := 0, 0, 0
+			for _, st := range fd.Body.List {
+				txt := exprStr(fs, st)
+				switch {
+				case strings.HasSuffix(txt, "UpstreamConnectionActive.Dec(1)"):
+					decs++
+				case txt == "p.activeClient=nil":
+					uncond++
+				case param != "" && (txt == "ifp.activeClient=="+param+"{p.activeClient=nil}" || txt == "if"+param+"==p.activeClient{p.activeClient=nil}"):
+					cond++
+				default:
+					bad("http2 deleteActiveClient: unrecognised statement %q", txt)
+				}
+			}
+			switch {
+			case decs == 2 && uncond == 1 && cond == 0:
+				h2Identity = false
+			case decs == 2 && uncond == 0 && cond == 1:
+				h2Identity = true
+			default:
+				bad("http2 deleteActiveClient: %d decrements, %d unconditional and %d guarded clearings of p.activeClient", decs, uncond, cond)
+			}
+		}
+		// onConnectionEvent: the close branch calls deleteActiveClient under p.mux; an early return for GOAWAY'd clients before it?
+		if fd := FindFunc(ff, "connPool", "onConnectionEvent"); fd == nil {
+			bad("http2 onConnectionEvent not found")
+		} else {
+			var closeBody *ast.BlockStmt
+			for _, st := range fd.Body.List {
+				if is, isIf := st.(*ast.IfStmt); isIf && exprStr(fs, is.Cond) == "event.IsClose()" {
+					closeBody = is.Body
+				}
+			}
+			if closeBody == nil {
+				bad("http2 onConnectionEvent: no `if event.IsClose()` branch")
+			} else {
+				iLock, iDel, iUnlock, iSkip := -1, -1, -1, -1
+				for i, st := range closeBody.List {
+					txt := exprStr(fs, st)
+					switch {
+					case txt == "p.mux.Lock()":
+						iLock = i
+					case txt == "p.mux.Unlock()":
+						iUnlock = i
+					case strings.HasPrefix(txt, "p.deleteActiveClient("):
+						iDel = i
+					case txt == "ifatomic.LoadUint32(&client.goaway)==1{return}":
+						iSkip = i
+					default:
+						if containsCall(st, "deleteActiveClient") || strings.Contains(txt, "return") || strings.Contains(txt, "p.activeClient") {
+							bad("http2 onConnectionEvent: unrecognised statement in the close branch: %q", txt)
+						}
+					}
+				}
+				if iLock < 0 || iDel != iLock+1 || iUnlock != iDel+1 {
+					bad("http2 onConnectionEvent: deleteActiveClient is not called as Lock / delete / Unlock (%d %d %d)", iLock, iDel, iUnlock)
+				}
+				if iSkip >= 0 && iSkip > iDel {
+					bad("http2 onConnectionEvent: GOAWAY test after the release")
+				}
+				h2SkipGoaway = iSkip >= 0
+			}
+		}
+		// the connect path: the function (method or function literal) whose top level calls newActiveClient
+		var connect *ast.BlockStmt
+		n := 0
+		ast.Inspect(ff, func(x ast.Node) bool {
+			var body *ast.BlockStmt
+			switch f := x.(type) {
+			case *ast.FuncDecl:
+				if f.Name.Name == "newActiveClient" {
+					return false
+				}
+				body = f.Body
+			case *ast.FuncLit:
+				body = f.Body
+			}
+			if body != nil {
+				for _, st := range body.List {
+					// a statement that merely contains the connecting function literal is not the connect path itself
+					direct := false
+					ast.Inspect(st, func(y ast.Node) bool {
+						if _, lit := y.(*ast.FuncLit); lit {
+							return false
+						}
+						if ce, isCall := y.(*ast.CallExpr); isCall {
+							if id, isId := ce.Fun.(*ast.Ident); isId && id.Name == "newActiveClient" {
+								direct = true
+							}
+						}
+						return !direct
+					})
+					if direct {
+						connect = body
+						n++
+					}
+				}
+			}
+			return true
+		})
+		if n != 1 || connect == nil {
+			bad("http2 pool: %d places call newActiveClient", n)
+		} else {
+			locked, deferred, seenDial, seenDrop := false, false, false, false
+			for _, st := range connect.List {
+				txt := exprStr(fs, st)
+				switch {
+				case txt == "p.mux.Lock()":
+					locked = true
+					continue
+				case txt == "p.mux.Unlock()":
+					if deferred {
+						bad("http2 connect path: Unlock after a deferred Unlock")
+					}
+					locked = false
+					continue
+				case txt == "deferp.mux.Unlock()":
+					if !locked {
+						bad("http2 connect path: deferred Unlock without Lock")
+					}
+					deferred = true
+					continue
+				}
+				if is, isIf := st.(*ast.IfStmt); isIf && exprStr(fs, is.Cond) == "p.activeClient!=nil&&atomic.LoadUint32(&p.activeClient.goaway)==1" {
+					body := exprStr(fs, is.Body)
+					switch {
+					case !locked:
+						bad("http2 connect path: the GOAWAY test is not under p.mux")
+					case body == "{p.deleteActiveClient()}":
+						h2DecOnDrop = true
+					case body == "{p.activeClient=nil}":
+						h2DecOnDrop = false
+					default:
+						bad("http2 connect path: unrecognised handling of a GOAWAY'd shared client: %q", body)
+					}
+					seenDrop = true
+					continue
+				}
+				if containsCall(st, "newActiveClient") && !seenDial {
+					seenDial = true
+					h2DialLocked = locked
+				}
+			}
+			if !seenDial || !seenDrop {
+				bad("http2 connect path: dial (%v) or GOAWAY test (%v) not recognised", seenDial, seenDrop)
+			}
+		}
+		switch {
+		case h2Identity && !h2SkipGoaway && !h2DecOnDrop, !h2Identity && h2SkipGoaway && h2DecOnDrop, !h2Identity && !h2SkipGoaway && !h2DecOnDrop:
+		default:
+			notes = append(notes, "http2 pool: unusual combination of release switches")
+		}
+	}
+
 	var b strings.Builder
-	b.WriteString("From MV Require Import Model.Pool Model.PoolMx Model.PoolAcct.\n")
+	b.WriteString("From MV Require Import Model.Pool Model.PoolMx Model.PoolAcct Model.PoolH2.\n")
 	for _, n := range notes {
 		b.WriteString("(* " + strings.ReplaceAll(n, "*)", "* )") + " *)\n")
 	}
@@ -455,6 +624,8 @@ func genPoolSrc(repo string) (string, error) {
 		fmt.Fprintf(&b, "Definition poolacct_src_%s : apolicy := mkAP %v %v.\n", n, acct[n][0], acct[n][1])
 	}
 	fmt.Fprintf(&b, "Definition poolacct_src_destroy_oneway : bool := %v.\n", destroyOneway)
+	fmt.Fprintf(&b, "Definition poolh2_src_switches : h2sw := mkH2Sw %v %v %v.\n", h2Identity, h2SkipGoaway, h2DecOnDrop)
+	fmt.Fprintf(&b, "Definition poolh2_src_dial_locked : bool := %v.\n", h2DialLocked)
 	fmt.Fprintf(&b, "Definition PoolSrc_translator_ok := %v.\n", ok)
 	return b.String(), nil
 }
